@@ -130,10 +130,12 @@ func Iterate(obj Object, fn func(Object) bool) error {
 		}
 		for {
 			item, err := Next(iterator)
-			if err == StopIteration {
-				break
-			}
 			if err != nil {
+				// StopIteration arrives as the bare class (Go iterators), as an
+				// instance or wrapped in ExceptionInfo (raised by Python code)
+				if IsException(StopIteration, err) {
+					break
+				}
 				return err
 			}
 			if fn(item) {
